@@ -81,6 +81,11 @@ CLAIMED = {
   note="Real schedules are sampled (200 seeds quick, 5000 thorough), the protocol is exhaustive in the model. 'No memory error' is covered only through the protocol invariant (readers below published, writer above, no reallocation); no sanitizer is part of this technique.",
   technique="TLA+ spec (Decoder.tla, safety + liveness with explicit condvar) model-checked with TLC + guarded hooks at linearization points + trace validation (DecoderTrace.tla) of seeded concurrent runs",
   design="5 C07"),
+ "C14": dict(
+  text="Layout.tla states the documented structural relations of format (0,2) over a decoded block map (header CRC and version, mirrored tail, check block at checkInfoPos, packSize = checkInfoPos + check block + 64, every block followed by a matching CRC and inside its pack, no overlap, every pointer lands on a block of the stated kind and size, data immediately before its tail, arrays of count x element, widths sufficient, locators name packs that are there; tiling without unused bytes and minimal widths are policy level). tools/jbkdec.py - own integer decoding, CRC-32C, BLAKE3, bit packing, lzma; zstd/lz4 through third-party crates only - decodes every file; TLC validates its block map against Layout.tla and the logical content it recovers (entries with variants and every value, content bytes) must equal what was written (Logical, Verbatim and Dec events; ContentPackTrace / EntryStoreTrace). Worlds: fresh containers for every compression x packaging, bare content / directory packs as C01 / C02 generate them, and a committed corpus of 8 containers (23 files) produced by the pinned version, which the current reader must read to the recorded logical content. Design level: the width lemmas of Bytes.tla, LayoutReparses of EntryStore.tla, TailRepresentable of ContentPack.tla.",
+  note="Division of labour: numeric fidelity is decided by the independent decoder, structure by the specification; a symmetric writer+reader change is caught by the decoder and the corpus, never by round-trip. Corpus container packs declare their size 5 bytes short (pinned-version trait): accepted for corpus files only.",
+  technique="explicit layout relations (Layout.tla) validated with TLC on block maps produced by an independent decoder + reference corpus of the pinned version + design-level lemmas model-checked with TLC",
+  design="5 C14"),
 }
 
 REASON_TODO = "check not built yet (work in progress; see DESIGN.md section 9 for the order of work)"
